@@ -1,7 +1,7 @@
 (* C10 - wedge, geometric product, meet.  Pinned theorems only. *)
 From Coq Require Import ZArith List Bool Reals Lra.
 From Flocq Require Import Core BinarySingleNaN.
-Require Import GV.FloatBase GV.FloatLemmas GV.AngleM GV.AngleProofs GV.GeonumM GV.GeonumProofs GV.TraitsM GV.NewProofs GV.CtorProofs GV.ClosureProofs GV.PiBounds GV.TrigProofs GV.DotValue.
+Require Import GV.FloatBase GV.FloatLemmas GV.AngleM GV.AngleProofs GV.GeonumM GV.GeonumProofs GV.TraitsM GV.NewProofs GV.CtorProofs GV.ClosureProofs GV.PiBounds GV.TrigProofs GV.DotValue GV.DistValue GV.DirProofs GV.SymProofs.
 Open Scope R_scope.
 
 Theorem C10_wedge : forall (L : libm) a b,
@@ -55,3 +55,12 @@ Theorem C10_sin_value : forall (L : libm) (u : R) a b, sin_acc L u ->
   fin s /\ Rabs (R_ s - sin (dir b - dir a)) <= u + 10001 / 100000000000000.
 Proof. exact wedge_sin_value. Qed.
 Print Assumptions C10_sin_value.
+
+(* swapping the operands keeps the wedge magnitude within twice the value tolerance *)
+Theorem C10_swap_magnitude : forall (L : libm) (u : R) a b, sin_acc L u -> u <= / 1000 ->
+  canonp (rem (ang a)) -> canonp (rem (ang b)) -> (0 <= blade (ang a))%Z -> (0 <= blade (ang b))%Z ->
+  fin (mag (wedge L a b)) -> fin (mag (wedge L b a)) ->
+  Rabs (R_ (mag (wedge L a b)) - R_ (mag (wedge L b a)))
+    <= 2 * (Rabs (R_ (mag a) * R_ (mag b)) * (u + 10002 / 100000000000000) + bpow radix2 (-1073)).
+Proof. exact wedge_swap_mag. Qed.
+Print Assumptions C10_swap_magnitude.
